@@ -11,6 +11,7 @@ CONSTANTS
   LayoutSpace <- TwoLayouts
 INVARIANT NoWriteError
 INVARIANT RoundTrip
+INVARIANT AllOrNothing
 INVARIANT ScalarRoundTrip
 INVARIANT SpeciesExact
 CHECK_DEADLOCK FALSE
